@@ -1,5 +1,6 @@
 import Dassh.Gen.C04
 import Dassh.Gen.C04Gap
+import Dassh.Gen.C04Ur
 import Mathlib.Algebra.Order.Field.Basic
 import Mathlib.Tactic.FieldSimp
 import Mathlib.Tactic.Ring
